@@ -60,6 +60,37 @@ Definition find_repeatable_block (dat : list Z) (pos : Z) : Z * Z :=
   let i0 := frb_i0 pos (frb_hist frb_window pos) in
   find_block (skipn (Z.to_nat i0) dat) (skipn (Z.to_nat pos) dat) pos len_dat.
 
+(* The same function in index form, every test and update being the regenerated kernel applied to the
+   variables the Python code applies it to (dat as an indexing function). Not extracted (indexing a list is
+   linear); Proofs/CompressProofs.v proves find_repeatable_block equal to it for every dat and 0 <= pos <= len. *)
+Definition datf (dat : list Z) : Z -> Z := fun i => nth (Z.to_nat i) dat 0.
+
+(* while (j - i) < max_len and j < pos and dat[j] == dat[pos + j - i]: j += 1 *)
+Fixpoint frb_inner_loop (fuel : nat) (dat : list Z) (i j max_len pos : Z) : Z :=
+  match fuel with
+  | O => j
+  | S f => if frb_inner j i max_len pos (datf dat) then frb_inner_loop f dat i (j + 1) max_len pos else j
+  end.
+
+(* while i < pos: j = i; <inner loop>; if (j - i) > best_len: best_len = j - i; best_i = i; i += 1 *)
+Fixpoint frb_outer_loop (fuel : nat) (dat : list Z) (i pos max_len best_len best_i : Z) : Z * Z :=
+  match fuel with
+  | O => (best_len, best_i)
+  | S f =>
+    if frb_outer i pos then
+      let j := frb_inner_loop (S (Z.to_nat max_len)) dat i i max_len pos in
+      if frb_better j i best_len then frb_outer_loop f dat (i + 1) pos max_len (frb_new_len j i) i
+      else frb_outer_loop f dat (i + 1) pos max_len best_len best_i
+    else (best_len, best_i)
+  end.
+
+Definition find_repeatable_block_ref (dat : list Z) (pos : Z) : Z * Z :=
+  let max_len := frb_max_len frb_max_block_len (zlen dat) pos in
+  let max_hist_len := frb_hist frb_window pos in
+  let '(best_len, best_i) :=
+    frb_outer_loop (S (Z.to_nat max_hist_len)) dat (frb_i0 pos max_hist_len) pos max_len frb_best_len0 frb_best_i0 in
+  (best_len, frb_offset pos best_i).
+
 (* ---------- compress_code ---------- *)
 Fixpoint contains (needle hay : list Z) : bool :=       (* needle in hay *)
   match hay with
